@@ -8,6 +8,7 @@ import (
 
 	dtpb "github.com/google/fhir/go/proto/google/fhir/proto/r4/core/datatypes_go_proto"
 	"github.com/iancoleman/strcase"
+	"github.com/verily-src/fhirpath-go/internal/fhir"
 	"github.com/verily-src/fhirpath-go/internal/resource"
 	"google.golang.org/protobuf/reflect/protoreflect"
 )
@@ -76,6 +77,10 @@ func identityOfStrong(ref *dtpb.Reference) (*resource.Identity, error) {
 	}
 	identID := refID.GetValue()
 	identVersion := refID.GetHistory().GetValue()
+	// the same ids that the URI form of the reference accepts
+	if !fhir.IsID(identID) || (identVersion != "" && !fhir.IsID(identVersion)) {
+		return nil, fmt.Errorf("%w: resource id or version id is invalid", ErrInvalidURI)
+	}
 
 	return resource.NewIdentity(resType, identID, identVersion)
 }
